@@ -95,6 +95,7 @@ def judge(case, steps):
     tainted: dict = {}                    # register -> description of the stale write that destroyed its content
     mem_before: dict = {r: H.RESET_VALUE for r in H.WRITABLE}
     obsolete_buffer: dict = {}            # register -> a primary write reached the hardware after the last buffering
+    buffered_regs: set = set()            # registers for which a value was buffered and has not been flushed since
     unnoticed_reset = False               # volatile device reset by a write failure the decorator swallowed
     phase = 0          # 0: no outage yet, 1: a commanded value was buffered, 2: recovered by a good cycle
     cycles_after = 0
@@ -126,7 +127,10 @@ def judge(case, steps):
             if volatile and not unnoticed_reset:
                 # which entry was being flushed is not visible in the failure event: when no buffered entry is obsolete
                 # (no newer value of its register has reached the hardware since it was buffered) the entry was a valid one
-                unnoticed_reset = True if any(obsolete_buffer.values()) else "valid-entry"
+                # the entry whose flush failed was a valid one unless a newer value of its register had reached the hardware
+                # since it was buffered (an obsolete entry: dropped by the decorator since 9c079fe2)
+                freg = [e[2] for e in st_.ev if e[0] == "wfail" and len(e) == 3]
+                unnoticed_reset = True if any(obsolete_buffer.get(r) for r in freg) or not freg else "valid-entry"
         elif failed and st_.post == "OK" and st_.pre == "Issue" and any(e[0] == "w" for e in st_.ev):
             # the call's own write succeeded (Issue -> OK) and a physical write of the buffer flush behind it failed: the
             # decorator swallows that failure and stays OK although the flushed entry was a valid one ("better luck next time")
@@ -143,6 +147,8 @@ def judge(case, steps):
             is_flush = e[3] == "single" and (st_.kind == "write_batch" or j != first_io)
             if not is_flush:
                 obsolete_buffer[r] = True        # whatever is still buffered for r is older than what the hardware has now
+            else:
+                buffered_regs.discard(r)         # the buffered entry of r has been flushed
             if r not in commanded:
                 V("wrong-write:never-commanded", "%s: register %s was written (%r) but never commanded" % (st_.brief(), r, v))
                 continue
@@ -182,6 +188,7 @@ def judge(case, steps):
             if was_buffered:
                 seen_states = {st_.post}
                 obsolete_buffer[r] = False
+                buffered_regs.add(r)
                 labels.add("buffered-in:" + st_.pre)
                 if phase == 0:
                     phase = 1
